@@ -7,7 +7,7 @@ use vcore::{Ctx, Finish, Report, Rng, RunOpts, ScenarioOut};
 use crate::dfs::{explore, DfsSpec};
 use crate::e2e::{self, E2e};
 use crate::gen;
-use crate::oracle::{judge, minimise, signature, witness, Complaint};
+use crate::oracle::{judge, signature, witness, Complaint};
 use crate::scn::*;
 use crate::wire::{outcome_json, run_scn, Outcome};
 
@@ -32,13 +32,23 @@ fn count_matrix(out: &mut ScenarioOut, o: &Outcome) {
 /// Turn the first complaint of a failing explicit-schedule scenario into a
 /// violation with a minimised witness.
 fn report(out: &mut ScenarioOut, part: &str, scn: &Scn, c: &Complaint, minimise_it: bool) {
-    let min = if minimise_it && crate::oracle::minimise_ticket() { minimise(scn, &c.class, ROUND_CAP, 250) } else { scn.clone() };
+    // a complaint identified as a known defect keeps its scenario as it is:
+    // its signature does not depend on the schedule
+    let min = if minimise_it && !c.diagnosed && crate::oracle::minimise_ticket() {
+        crate::oracle::minimise_with(
+            scn,
+            &|s| judge(s, &run_scn(s, ROUND_CAP)).complaints.iter().any(|x| x.class == c.class && !x.diagnosed),
+            250,
+        )
+    } else {
+        scn.clone()
+    };
     let o = run_scn(&min, ROUND_CAP);
     let v = judge(&min, &o);
     let c2 = v
         .complaints
         .iter()
-        .find(|x| x.class == c.class)
+        .find(|x| x.class == c.class && x.diagnosed == c.diagnosed)
         .cloned()
         .unwrap_or_else(|| c.clone());
     let sig = signature(PROP, &c2, &min);
@@ -226,7 +236,13 @@ fn run_dfs(ctx: &Ctx, idx: u64) -> ScenarioOut {
     let specs = dfs_variants(ctx);
     let spec = &specs[idx as usize];
     let mut out = ScenarioOut::default();
-    let st = explore(spec, &|scn, o| !judge(scn, o).complaints.is_empty());
+    let st = explore(spec, &|scn, o| {
+        let v = judge(scn, o);
+        match v.complaints.first() {
+            Some(c) => (true, c.diagnosed),
+            None => (false, false),
+        }
+    });
     out.digest = st.digest;
     out.nontrivial = st.paths > 1;
     out.count("dfs_variants", 1);
@@ -255,10 +271,11 @@ fn run_dfs(ctx: &Ctx, idx: u64) -> ScenarioOut {
     }));
     // one violation per distinct complaint class found in this variant
     let mut seen = std::collections::BTreeSet::new();
-    for (scn, o) in &st.flagged {
+    out.count("dfs_paths_hitting_known_finding", st.known_hits);
+    for (scn, o, _) in &st.flagged {
         let v = judge(scn, o);
         if let Some(c) = v.complaints.first() {
-            if seen.insert(c.class.clone()) {
+            if seen.insert(format!("{}{}", c.class, c.diagnosed)) {
                 report(&mut out, "dfs", scn, c, true);
             }
         }
@@ -320,6 +337,9 @@ pub fn walk_out(scn: &Scn) -> ScenarioOut {
     out.sample = Some(json!({"part": "walk", "scn": scn.to_json(), "applied_faults": o.applied_faults().iter().map(|f| f.canon()).collect::<Vec<_>>(),
         "outcome": outcome_json(&o, 25, 15)}));
     if let Some(c) = v.complaints.first() {
+        if c.diagnosed {
+            out.count(&format!("walks_hitting_known.{}", c.kind), 1);
+        }
         let ex = explicit_of(scn, &o);
         // the explicit replay must reproduce the complaint; if it does not the
         // harness is at fault (kept visible as a harness error)
@@ -394,7 +414,7 @@ pub fn e2e_out(d: &E2e) -> ScenarioOut {
     if let Some(c) = complaints.first() {
         out.violate(
             &c.class,
-            format!("{PROP}|{}|{}|{}", c.class, c.kind, d.canon()),
+            if c.diagnosed { format!("{PROP}|{}|{}", c.class, c.kind) } else { format!("{PROP}|{}|{}|{}", c.class, c.kind, d.canon()) },
             format!("{} [{}]: {} — {}", c.class, c.kind, c.detail, d.canon()),
             json!({"part": "e2e", "e2e": d.to_json(), "api": o.hist.events, "rule_dropped": format!("{:?}", o.stats.dropped)}),
         );
